@@ -101,3 +101,51 @@ func H_C05_p2p_validator_dispatch() {
 		vfReach("rejected")
 	}
 }
+
+// C04/C05 (combination): when several handlers validate one topic (a flavour's own handler plus
+// the core handler), every registered validator is consulted and a reject from any of them wins,
+// then an ignore, and only unanimous acceptance accepts.
+func H_C04_combined_validator() {
+	vfP2P.kind, vfP2P.decodeFails, vfP2P.trace = 1, false, false
+	m := &P2PMessaging{gossipTopicNames: map[string]struct{}{}, handlerRegistry: HandlerRegistry{}, validatorRegistry: ValidatorRegistry{}}
+	n := 1 + vfLen("extra-validators", vfParam("validators", 3)-1)
+	verdicts := []pubsub.ValidationResult{}
+	calls := make([]int, n)
+	p := vfMessageOfKind(1)
+	for i := 0; i < n; i++ {
+		i := i
+		v := []pubsub.ValidationResult{pubsub.ValidationAccept, pubsub.ValidationReject, pubsub.ValidationIgnore}[vfLen("verdict", 2)]
+		verdicts = append(verdicts, v)
+		m.AddValidator(func(ctx context.Context, msg p2pmsg.Message) (pubsub.ValidationResult, error) {
+			calls[i]++
+			return v, nil
+		}, p)
+	}
+	topic := p.Topic()
+	vfAssert(len(m.validatorRegistry[topic]) == n, "every-validator-of-the-topic-is-registered")
+	combined := m.validatorRegistry.GetCombinedValidator(topic)
+	res := combined(context.Background(), peer.ID("sender"), &pubsub.Message{Message: &pubsubpb.Message{Topic: &topic}})
+	anyReject, anyIgnore := false, false
+	for _, v := range verdicts {
+		if v == pubsub.ValidationReject {
+			anyReject = true
+		}
+		if v == pubsub.ValidationIgnore {
+			anyIgnore = true
+		}
+	}
+	switch {
+	case anyReject:
+		vfAssert(res == pubsub.ValidationReject, "a-reject-from-any-validator-wins")
+		vfReach("rejected")
+	case anyIgnore:
+		vfAssert(res == pubsub.ValidationIgnore, "an-ignore-wins-over-acceptance")
+		vfReach("ignored")
+	default:
+		vfAssert(res == pubsub.ValidationAccept, "unanimous-acceptance-accepts")
+		for i := range calls {
+			vfAssert(calls[i] == 1, "every-validator-is-consulted-once")
+		}
+		vfReach("accepted")
+	}
+}
